@@ -40,7 +40,7 @@ ASSUMPTIONS = [
 RUNS = {"quick": 16000, "thorough": 400000}
 BUDGET_S = {"quick": 60, "thorough": 900}
 CHUNK = 250
-KEEP = ("call", "pre", "snap", "body", "body_exit", "post", "err", "inv", "inverr", "return", "repr")
+KEEP = ("call", "pre", "snap", "body", "body_exit", "post", "old", "err", "inv", "inverr", "return", "repr")
 
 
 def _strip_async(world):
